@@ -242,3 +242,20 @@ MUTANTS = [
     ("registry: location points to the wrong module", R, "    apr_md5_crypt=\"passlib.handlers.md5_crypt\",", "    apr_md5_crypt=\"passlib.handlers.sha1_crypt\",", "refute"),
     ("get_crypt_handler caches the handler under the alias spelling", "passlib/registry.py", "        name = alt\n", "        orig, name = name, alt\n        if name in _handlers:\n            _handlers[orig] = _handlers[name]\n", "refute", "get_crypt_handler"),
 ]
+
+# ---- a stored hash given as bytes in a legacy 8-bit encoding still reaches the scheme that owns it -------------------------------
+from pyvc.contract import Bytes as _Bytes  # noqa: E402
+
+CONTRACTS.append(Contract(
+    "to_unicode_for_identify[any bytes]", "passlib/utils/handlers.py::to_unicode_for_identify",
+    params={"hash": _Bytes()},
+    raises={},
+    ensures=[("every byte string is turned into text for identification (UTF-8 when it is, else byte-for-byte latin-1): no scheme's identify() raises on a plaintext / LDAP-plaintext entry in a legacy encoding",
+              lambda it, env: z3.BoolVal(it.kind_of(it.resolve(env.lookup("result"))) == "str"))],
+    descr="every byte string (not only ASCII / UTF-8)",
+))
+from contracts import c03 as _c03  # noqa: E402
+
+# the shipped Django contexts default to django_bcrypt_sha256: its first hash in a fresh process must be the one it verifies (shared with C03)
+CONTRACTS += [c for c in _c03.CONTRACTS if c.id == "bcrypt._NoBackend._calc_checksum"]
+MUTANTS.append(("to_unicode_for_identify: latin-1 fallback for non-UTF-8 bytes dropped", "passlib/utils/handlers.py", "        except UnicodeDecodeError:\n            return hash.decode(\"latin-1\")", "        except UnicodeDecodeError:\n            raise", "refute", "to_unicode_for_identify"))
